@@ -316,9 +316,9 @@ def check_accounting(ck, cm: CacheModel):
                     ename = st.targets[0].id if st.value is c else None
                     subs, others = _size_flow(fa, cm, st, "entry" if st.value is c else "size")
                     # every path from the pop to the exit either subtracts or found nothing (the popped value is None / falsy)
-                    popx = A.norm(c)
-                    edge_ok = branch_filter(fa, lambda t_, p_, popx=popx, ename=ename: (p_ and t_ in (popx + " is None", str(ename) + " is None"))
-                                            or (not p_ and t_ in (popx, ename)))
+                    # (the literal of a test names the pop with its locals written out: `old is None` reads `self.map.pop(<key expression>, None) is None`)
+                    popxs = {A.norm(c), _xn(fa, c, st), str(ename)}
+                    edge_ok = branch_filter(fa, lambda t_, p_, popxs=popxs: (p_ and t_ in {x + " is None" for x in popxs}) or (not p_ and t_ in popxs))
                     subn = fa.nodes_all(subs)
                     # (a pop that raises has taken nothing out: the exception edge of the pop statement itself is not a path "after the pop")
                     popn = set(fa.nodes(st))
@@ -388,6 +388,9 @@ def check_accounting(ck, cm: CacheModel):
                         app_all = [s2 for s2 in fa.stmts(ast.Expr) if isinstance(s2.value, ast.Call)
                                    and A.call_attr(s2.value) == "append" and self_attr(A.call_recv(s2.value), cm.queue)
                                    and s2.value.args and _xn(fa, s2.value.args[0], s2) == kx]
+                        # the mark-used helper (R3 mark-used-shape: removes the key, then appends it at the right end on every path) queues the key as well
+                        app_all += [s2 for s2 in fa.stmts(ast.Expr) if isinstance(s2.value, ast.Call) and cm.is_self_call(s2.value, cm.mark_used)
+                                    and s2.value.args and _xn(fa, s2.value.args[0], s2) == kx and s2 not in app_all]
                         app = [s2 for s2 in app_all if s2 in blk]
                         okq = len(app) == 1 or (not app and not _in_loop(fa, st) and bool(app_all) and every_path_through(fa, ins_nodes, fa.nodes_all(app_all))
                                                 and at_most_once(fa, fa.nodes_all(app_all)))
@@ -396,7 +399,13 @@ def check_accounting(ck, cm: CacheModel):
                               "the inserted key is appended to the recency queue %d times in the block" % len(app), fa.where(st))
                         # overwrite cannot leak: an eviction of the same key dominates the insertion
                         ev = [c for c in fa.calls(cm.evict.name) if cm.is_self_call(c, cm.evict) and c.args and _xn(fa, c.args[0], c) == kx]
-                        dom = bool(ev) and all(fa.cfg.must_pass(fa.nodes_all(ev), n) for n in ins_nodes)
+                        # ... or the entry of that key is taken out of the map right here (each such statement is held to the
+                        # accounting of a deletion above); a way round it on which the key is known not to be resident needs none
+                        ev += [s2 for s2 in fa.stmts(ast.Delete) if any(isinstance(t2, ast.Subscript) and self_attr(t2.value, cm.map) and _xn(fa, t2.slice, s2) == kx
+                                                                       for t2 in s2.targets)]
+                        ev += [c for c in fa.calls("pop") if self_attr(A.call_recv(c), cm.map) and c.args and _xn(fa, c.args[0], c) == kx]
+                        not_resident = branch_filter(fa, lambda t_, p_, kx=kx: not p_ and t_ in ("%s in self.%s" % (kx, cm.map), "%s in self.%s.keys()" % (kx, cm.map)))
+                        dom = bool(ev) and all(fa.cfg.must_pass(fa.nodes_all(ev), n, edge_ok=not_resident) for n in ins_nodes)
                         ck.ob(R, fa.key(st, "ins-after-evict"), dom,
                               "an eviction of the same key dominates the insertion" if dom else
                               "the insertion is not dominated by an eviction of the same key: an overwrite leaks the old size",
@@ -606,8 +615,20 @@ class BudgetTests:
                  ast.GtE: {True: None, False: "fits"}, ast.Lt: {True: "fits", False: None},
                  ast.Eq: {True: "fits", False: None}, ast.NotEq: {True: None, False: "fits"}}[op]
         if kind == "counter-only":
+            if self._size_booked_before(nid):
+                # the size of this insertion is on the counter already on every way here: the counter IS counter + size
+                return "room", table
             table = {True: None, False: None}
         return kind, table
+
+    def _size_booked_before(self, nid) -> bool:
+        """every path from the entry to CFG node `nid` has added the size of this insertion to the usage counter (a put that books
+        first and makes room afterwards)"""
+        fa, cm = self.fa, self.cm
+        books = [st for st in fa.stmts(ast.AugAssign) if isinstance(st.op, ast.Add) and self_attr(st.target, cm.counter)
+                 and any(A.norm(st.value) in self.forms or self._is_size(st.value, i) for i in fa.nodes(st))]
+        bn = fa.nodes_all(books)
+        return bool(bn) and nid not in bn and fa.cfg.must_pass(bn, nid)
 
     def _is_queue_len(self, e, nid):
         v, dn = self._through_local(e, nid)
@@ -2156,6 +2177,165 @@ def check_forget_scope(ck, cm: CacheModel, rule="C06.R5"):
                 IndexMirror(ck, cm, T).check(rule, scope_roots=sc.root_exprs)
 
 
+# ---- C06.R7: the insertion is all-or-nothing ---------------------------------------------------------------------
+
+_PURE_BUILTINS = ("len", "isinstance", "issubclass", "id", "type", "bool", "callable", "hasattr")
+
+
+class FailureModel:
+    """What may leave by an exception in the middle of a cache operation.  Plain field reads, operations on the cache's OWN
+    containers (whether those succeed is what R1-R3 decide), building the entry record, a few side-effect free builtins and
+    logging are taken as not failing; so is a method of the cache class all of whose statements are of that kind (decided
+    recursively on its own graph, handlers included).  Everything else -- a call into the cached value, an estimator, a
+    store, an explicit raise / assert -- may fail."""
+
+    def __init__(self, ck, cm: CacheModel):
+        self.ck, self.cm = ck, cm
+        self.slots = {cm.map, cm.queue} | set(cm.aux_maps) | ({cm.refs} if cm.refs else set())
+        self._memo = {}
+
+    def _own_slot(self, e) -> bool:
+        return bool(self_attr(e)) and self_attr(e) in self.slots
+
+    def _record_class(self, call):
+        """the repository class a call constructs, when its constructor only stores what it is given"""
+        d = (A.dotted(call.func) or "").split(".")[-1]
+        if not d:
+            return False
+        for m in self.ck.repo.modules.values():
+            for n in m.tree.body:
+                if isinstance(n, ast.ClassDef) and n.name == d:
+                    for f in n.body:
+                        if isinstance(f, A.FUNC_TYPES) and f.name in ("__init__", "__post_init__", "__new__"):
+                            if any(isinstance(x, (ast.Call, ast.Raise, ast.Assert, ast.Subscript)) for x in ast.walk(f)):
+                                return False
+                    bases_ok = all((A.dotted(b) or "").split(".")[-1] in ("object", "NamedTuple") for b in n.bases)
+                    return bases_ok
+        return False
+
+    def _method(self, call):
+        f = call.func
+        if isinstance(f, ast.Attribute) and isinstance(f.value, ast.Name) and f.value.id in ("self", "cls", self.cm.cls.name):
+            return self.cm.cls.methods.get(f.attr)
+        return None
+
+    def method_cannot_fail(self, m, depth=0) -> bool:
+        k = m.qual
+        if k not in self._memo:
+            self._memo[k] = False  # a recursive helper is not presumed safe
+            if depth <= 3 and not any(isinstance(n, (ast.Yield, ast.YieldFrom, ast.Await)) for n in ast.walk(m.node)):
+                from ..cfg import CFG
+                pm = A.parent_map(m.node)
+                g = CFG(m.node, "all", nonraising=lambda n, d=depth: self.nonraising(n, d + 1, pm))
+                self._memo[k] = g.raise_exit not in g.reach([g.entry])
+        return self._memo[k]
+
+    @staticmethod
+    def _caught(n, pm, names) -> bool:
+        """`n` sits in the body of a `try` one of whose handlers takes an exception of one of the classes `names` (or everything)"""
+        c, p = n, (pm or {}).get(n)
+        while p is not None:
+            if isinstance(p, ast.Try) and c in p.body:
+                for h in p.handlers:
+                    ts = [h.type] if h.type is not None and not isinstance(h.type, ast.Tuple) else list(h.type.elts) if h.type is not None else [None]
+                    if any(t is None or (A.dotted(t) or "").split(".")[-1] in tuple(names) + ("Exception", "BaseException") for t in ts):
+                        return True
+            if isinstance(p, A.FUNC_TYPES):
+                break
+            c, p = p, pm.get(p)
+        return False
+
+    def nonraising(self, n, depth=0, pm=None) -> bool:
+        from ..fa import log_call
+        if isinstance(n, ast.Attribute):
+            return True
+        if isinstance(n, ast.Subscript):
+            if self.cm.refs and self_attr(n.value, self.cm.refs) and isinstance(n.ctx, ast.Store):
+                # a weak table refuses values that cannot be weakly referenced
+                return self._caught(n, pm, ("TypeError",))
+            return self._own_slot(n.value)
+        if isinstance(n, ast.Call):
+            if log_call(n):
+                return True
+            f = n.func
+            if isinstance(f, ast.Attribute) and self._own_slot(f.value):
+                return True
+            if isinstance(f, ast.Name) and f.id in _PURE_BUILTINS:
+                return True
+            m = self._method(n)
+            if m is not None:
+                return self.method_cannot_fail(m, depth)
+            if isinstance(f, (ast.Name, ast.Attribute)) and self._record_class(n):
+                return True
+        return False
+
+
+def check_insertion_atomic(ck, cm: CacheModel, R="C06.R7"):
+    ck.rule(R, "all-or-nothing insertion: between booking the size on the usage counter, storing the entry in the resident map and "
+               "queueing its key, no statement can fail (unless every way on from the failure completes the insertion or evicts the "
+               "key again): a failure in between leaves bytes booked that no resident entry accounts for, or an entry nobody counts", 1)
+    from ..cfg import CFG
+    fm = FailureModel(ck, cm)
+    for m in cm.inserts:
+        fa = FA(ck, m)
+        g = CFG(m.node, "all", nonraising=lambda n, pm=fa.pm: fm.nonraising(n, 0, pm))
+        live = g.reach([g.entry])
+        nodes = lambda sts: [i for s in sts for i in g.nodes_of(s) if i in live]
+        stores = [st for st in fa.stmts(ast.Assign) if any(isinstance(t, ast.Subscript) and self_attr(t.value, cm.map) for t in st.targets)]
+        if not stores:
+            continue
+        keys = {_xn(fa, t.slice, st) for st in stores for t in st.targets if isinstance(t, ast.Subscript) and self_attr(t.value, cm.map)}
+        books = [st for st in fa.stmts(ast.AugAssign) if isinstance(st.op, ast.Add) and self_attr(st.target, cm.counter)]
+        queued = [fa.stmt_of(c) for c in fa.calls() if A.call_attr(c) in ("append", "appendleft") and self_attr(A.call_recv(c), cm.queue)
+                  and c.args and _xn(fa, c.args[0], c) in keys]
+        queued += [fa.stmt_of(c) for c in fa.calls() if cm.is_self_call(c, cm.mark_used) and c.args and _xn(fa, c.args[0], c) in keys]
+        undo = [fa.stmt_of(c) for c in fa.calls(cm.evict.name) if cm.is_self_call(c, cm.evict) and c.args and _xn(fa, c.args[0], c) in keys]
+        parts = [("the entry is stored in the resident map", stores), ("its size is booked on %s" % cm.counter, books),
+                 ("its key is put on the recency queue", queued)]
+        undo_n = set(nodes(undo))
+        for (what_a, sts_a) in parts:
+            for st in sts_a:
+                bad = None
+                for (what_b, sts_b) in parts:
+                    if sts_b is sts_a or not sts_b:
+                        continue
+                    bn = set(nodes(sts_b))
+                    for gnode in nodes([st]):
+                        if gnode in bn or gnode not in g.reach([g.entry], removed=bn):
+                            continue  # that half has happened by the time this one does
+                        # what runs after this half and before the other one (a failure of this statement itself leaves nothing behind)
+                        seen, hit, stack = set(), set(), [d for (d, l) in g.succ[gnode] if l != "exc"]
+                        while stack:
+                            x = stack.pop()
+                            if x in seen or x in undo_n:
+                                continue
+                            if x in bn:
+                                hit.add(x)
+                                continue
+                            seen.add(x)
+                            stack += [d for (d, l) in g.succ[x] if l != "exc"]
+                        for x in sorted(seen | hit):
+                            thrown = [d for (d, l) in g.succ[x] if l == "exc"]
+                            if not thrown:
+                                continue
+                            after = g.reach(thrown, removed=bn | undo_n)
+                            if g.exit in after or g.raise_exit in after:
+                                bad = (x, what_b)
+                                break
+                        if bad:
+                            break
+                    if bad:
+                        break
+                if bad:
+                    nd = g.node(bad[0])
+                    msg = "once %s, `%s` (line %s) may fail before %s, and nothing on the way out completes the insertion or evicts the key again: " \
+                          "the usage counter no longer equals what the resident entries account for" % (
+                              what_a, A.head(nd.ast) if nd.ast is not None else "?", getattr(nd.ast, "lineno", "?"), bad[1])
+                else:
+                    msg = "nothing can fail between this half of the insertion and the others"
+                ck.ob(R, fa.key(st, "ins-atomic"), bad is None, msg, fa.where(st))
+
+
 def check(ck):
     from .memo import check_new_memo_tables
     ck.run(check_new_memo_tables, ck, "C06.M1", ('storage_base',))
@@ -2166,6 +2346,7 @@ def check(ck):
     ck.run(check_weak_fallback, ck, cm, "C06.R3")
     ck.run(check_queue_unbounded, ck, cm, "C06.R3")
     ck.run(check_estimates_bounded_below, ck, cm, "C06.R1")
+    ck.run(check_insertion_atomic, ck, cm, "C06.R7")
     ck.run(check_replace_on_put, ck, cm, "C06.R4")
     ck.run(check_forget, ck, cm, "C06.R5")
     ck.run(check_forget_scope, ck, cm, "C06.R5")
